@@ -29,6 +29,9 @@ func Gob(g *G, n int) []Program {
 				g.Emit(M{"op": "SetPrec", "z": "r0", "p": 1 + g.R.Intn(len(d))})
 			}
 		}
+		if g.R.Intn(12) == 0 { // the largest precision there is: the word count derived from it must not wrap
+			g.Emit(M{"op": "SetPrecMax", "z": "r0"})
+		}
 		// the receiver: zero value, precision 0 with other attributes, or its own precision and mode
 		switch g.R.Intn(4) {
 		case 0:
